@@ -17,6 +17,7 @@ package sparseindex
 import (
 	"math"
 
+	"github.com/openGemini/openGemini/lib/record"
 	"github.com/openGemini/openGemini/lib/util/lifted/vm/protoparser/influx"
 )
 
@@ -38,19 +39,41 @@ func NewRange(left, right *FieldRef, li, ri bool) *Range {
 }
 
 // turnOpenRangeIntoClosed convert an open range to a closed range. for example, turn (0, 3) into [1, 2].
+// The new bound is a private copy: the field may refer to a cell of the primary index record (or of the
+// condition), which must not be rewritten by evaluating a condition.
 func (r *Range) turnOpenRangeIntoClosed() {
-	if len(r.left.cols) > 0 && !r.leftIncluded && r.left.cols[r.left.column].dataType == influx.Field_Type_Int {
-		if val, _ := r.left.cols[r.left.column].column.IntegerValue(r.left.row); val != math.MaxInt64 {
-			r.left.cols[r.left.column].column.UpdateIntegerValue(val+1, false, r.left.row)
+	if !r.leftIncluded {
+		if val, ok := integerBound(r.left); ok && val != math.MaxInt64 {
+			r.left = newIntegerFieldRef(r.left, val+1)
 			r.leftIncluded = true
 		}
 	}
-	if len(r.right.cols) > 0 && !r.rightIncluded && r.right.cols[r.right.column].dataType == influx.Field_Type_Int {
-		if val, _ := r.right.cols[r.right.column].column.IntegerValue(r.right.row); val != math.MinInt64 {
-			r.right.cols[r.right.column].column.UpdateIntegerValue(val-1, false, r.right.row)
+	if !r.rightIncluded {
+		if val, ok := integerBound(r.right); ok && val != math.MinInt64 {
+			r.right = newIntegerFieldRef(r.right, val-1)
 			r.rightIncluded = true
 		}
 	}
+}
+
+// integerBound returns the value of a finite, non-null bound of an integer column.
+func integerBound(f *FieldRef) (int64, bool) {
+	if len(f.cols) == 0 || f.IsPositiveInfinity() || f.IsNegativeInfinity() ||
+		f.cols[f.column].dataType != influx.Field_Type_Int {
+		return 0, false
+	}
+	val, isNil := f.cols[f.column].column.IntegerValue(f.row)
+	return val, !isNil
+}
+
+// newIntegerFieldRef returns a field of the same column as f that holds val in a column of its own.
+func newIntegerFieldRef(f *FieldRef, val int64) *FieldRef {
+	col := &record.ColVal{}
+	col.AppendInteger(val)
+	cols := make([]*ColumnRef, len(f.cols))
+	copy(cols, f.cols)
+	cols[f.column] = &ColumnRef{name: f.cols[f.column].name, dataType: influx.Field_Type_Int, column: col}
+	return &FieldRef{cols: cols, column: f.column, row: 0}
 }
 
 // leftLEQ x is to the right for the left point of the range.
